@@ -65,6 +65,87 @@ Example exn_handled_not_seen_outside_nonvacuous :
   /\ snd (ref_run (S (depth st_init)) (PTry (PThrow 0 5) [0] (PTick 1))) = RNormal.
 Proof. split; [apply PeanoNat.Nat.leb_le; vm_compute; reflexivity | reflexivity]. Qed.
 
+(* The structured semantics [ref_run] the theorems above compare with is the relation [eval]
+   (Exn.v: one rule per way a construct can end). *)
+Theorem exn_reference_is_eval : forall d p t r, eval d p t r <-> ref_run d p = (t, r).
+Proof. exact ExnProofs.eval_iff_ref_run. Qed.
+Print Assumptions exn_reference_is_eval.
+
+Theorem exn_machine_follows_eval : forall p st t r0,
+  depth st + nesting p <= exc_max_depth ->
+  eval (depth st) p t r0 ->
+  let '(tr, r, st') := mach p st in
+  tr = t /\ depth st' = depth st /\
+  match r0 with
+  | RNormal => r = MNormal
+  | RRaised k m => obj st' = Some k /\ msg st' = m /\
+                   match bufs st with [] => r = MDied (Some k) m | b :: _ => r = MJump b end
+  end.
+Proof. exact ExnProofs.machine_follows_eval. Qed.
+Print Assumptions exn_machine_follows_eval.
+
+Example exn_machine_follows_eval_nonvacuous :
+  depth st_init + nesting (PTry (PTry (PThrow 0 5) [1] (PTick 1)) [0; 2] (PTick 2)) <= exc_max_depth /\
+  eval (depth st_init) (PTry (PTry (PThrow 0 5) [1] (PTick 1)) [0; 2] (PTick 2)) [EHandler 0 5 0; ETick 2 0] RNormal.
+Proof. split; [apply PeanoNat.Nat.leb_le; vm_compute; reflexivity | apply ExnProofs.eval_iff_ref_run; reflexivity]. Qed.
+
+(* "A handler runs if and only if an exception raised in its own try body was not already handled
+   by an inner block and matches its filter (an empty filter matches everything)"; when it runs it
+   is entered once, with the escaped exception bound, and the block ends as the handler ends. *)
+Theorem exn_handler_runs_iff : forall d b fs h t r,
+  eval d (PTry b fs h) t r ->
+  forall t1 r1, eval (S d) b t1 r1 ->
+  ((exists k m, r1 = RRaised k m /\ (fs = [] \/ In k fs)) <->
+   (exists k m t2, t = t1 ++ EHandler k m d :: t2)) /\
+  (forall k m t2, t = t1 ++ EHandler k m d :: t2 ->
+     r1 = RRaised k m /\ exists r2, eval d h t2 r2 /\ r = r2).
+Proof. exact ExnProofs.handler_runs_iff. Qed.
+Print Assumptions exn_handler_runs_iff.
+
+Example exn_handler_runs_iff_nonvacuous :
+  eval 0 (PTry (PThrow 1 7) [0; 1] (PTick 3)) [EHandler 1 7 0; ETick 3 0] RNormal /\
+  eval 1 (PThrow 1 7) [] (RRaised 1 7).
+Proof. split; apply ExnProofs.eval_iff_ref_run; reflexivity. Qed.
+
+(* "A non-matching exception continues to the nearest enclosing matching handler": p raises k inside
+   blocks pre (innermost first) none of which admits k, inside a block that does, inside anything:
+   none of the skipped handlers runs, the admitting one is entered with k at its own depth. *)
+Theorem exn_nearest_matching_handler : forall pre fs h p st t1 k m,
+  depth st + nesting (chain (pre ++ [(fs, h)]) p) <= exc_max_depth ->
+  ref_run (S (length pre + depth st)) p = (t1, RRaised k m) ->
+  Forall (fun lv => fst lv <> [] /\ ~ In k (fst lv)) pre ->
+  (fs = [] \/ In k fs) ->
+  let '(tr, r, st') := mach (chain (pre ++ [(fs, h)]) p) st in
+  let '(t2, r2) := ref_run (depth st) h in
+  tr = t1 ++ EHandler k m (depth st) :: t2 /\ depth st' = depth st /\
+  (r2 = RNormal -> r = MNormal).
+Proof. exact ExnProofs.machine_nearest_matching_handler. Qed.
+Print Assumptions exn_nearest_matching_handler.
+
+Example exn_nearest_matching_handler_nonvacuous :
+  depth st_init + nesting (chain ([([1], PTick 1); ([2; 3], PTick 2)] ++ [([0], PTick 3)]) (PThrow 0 9)) <= exc_max_depth /\
+  ref_run (S (length [([1], PTick 1); ([2; 3], PTick 2)] + depth st_init)) (PThrow 0 9) = ([], RRaised 0 9) /\
+  Forall (fun lv : list nat * prog => fst lv <> [] /\ ~ In 0 (fst lv)) [([1], PTick 1); ([2; 3], PTick 2)].
+Proof.
+  split; [apply PeanoNat.Nat.leb_le; vm_compute; reflexivity|]. split; [reflexivity|].
+  repeat constructor; cbn; try discriminate; intuition discriminate.
+Qed.
+
+(* "... and one that nobody handles terminates the program with a failure status and a diagnostic" *)
+Theorem exn_nobody_matches_dies : forall pre p t1 k m,
+  nesting (chain pre p) <= exc_max_depth ->
+  ref_run (length pre) p = (t1, RRaised k m) ->
+  Forall (fun lv => fst lv <> [] /\ ~ In k (fst lv)) pre ->
+  let '(tr, r, st') := mach (chain pre p) st_init in
+  tr = t1 /\ r = MDied (Some k) m /\ depth st' = 0.
+Proof. exact ExnProofs.machine_nobody_matches. Qed.
+Print Assumptions exn_nobody_matches_dies.
+
+Example exn_nobody_matches_dies_nonvacuous :
+  nesting (chain [([1], PTick 1); ([2; 3], PTick 2)] (PSeq (PTick 5) (PThrow 0 9))) <= exc_max_depth /\
+  ref_run (length [([1], PTick 1); ([2; 3], PTick 2)]) (PSeq (PTick 5) (PThrow 0 9)) = ([ETick 5 2], RRaised 0 9).
+Proof. split; [apply PeanoNat.Nat.leb_le; vm_compute; reflexivity | reflexivity]. Qed.
+
 (* The nesting bound of the theorems is the real one: one more try aborts. *)
 Theorem exn_overflow_aborts : forall b fs h st,
   depth st = exc_max_depth -> mach (PTry b fs h) st = ([], MAbort, st).
